@@ -35,6 +35,8 @@ type getter struct {
 	ranges  int
 	failAt  int
 	trusted []*vk.H
+	// softForged: answer to head requests that carry a trusted head: this header + a soft VerifyError
+	softForged *vk.H
 }
 
 var errGetter = errors.New("vk: injected getter error")
@@ -48,7 +50,12 @@ func (g *getter) Head(ctx context.Context, opts ...header.HeadOption[*vk.H]) (*v
 	g.mu.Lock()
 	g.heads++
 	g.trusted = append(g.trusted, p.TrustedHead)
+	sf := g.softForged
 	g.mu.Unlock()
+	if sf != nil && p.TrustedHead != nil {
+		// what Exchange.Head hands back when the best answer does not verify directly against the trusted head
+		return sf, &header.VerifyError{Reason: errors.New("vk: beyond the trust range"), SoftFailure: true}
+	}
 	return g.C[g.C.N()], nil
 }
 
